@@ -1,11 +1,12 @@
 #!/bin/bash
-# usage: tools/regress_seeds.sh [seed-dir-name...]   runs every kept seeded change against the quick check of its
-# property (and, where meta.json says another check is the detecting one, that check) and lists the outcome.
+# usage: tools/regress_seeds.sh [seed-dir-name...]   runs every kept seeded change against the quick check that is
+# recorded as detecting it (meta.json check_result.detecting_check, else the check of its own property) and lists
+# the outcome: "exit=1 <signature>" = still detected.
 ROOT="$(cd "$(dirname "$0")/.." && pwd)"
 cd "$ROOT"
 SEEDS=("$@"); [ ${#SEEDS[@]} -eq 0 ] && SEEDS=($(ls seeded))
 for s in "${SEEDS[@]}"; do
-  id="${s%%-*}"
+  id=$(python3 -c "import json,sys;m=json.load(open('$ROOT/seeded/$s/meta.json'));print(m.get('check_result',{}).get('detecting_check') or '${s%%-*}')")
   out=$(tools/try_seed.sh "$ROOT/seeded/$s/patch.diff" "$id" quick 2>&1)
   rc=$(echo "$out" | grep -o '^exit=[0-9]*' | head -1)
   sig=$(echo "$out" | grep -m1 'signature:' | cut -c1-140)
